@@ -9,7 +9,7 @@ if ! (cd $d && go build ./... 2>&1 | head -5); then echo "BUILD FAILED"; fi
 t=$(cd $d && go test -vet=off -count=1 ./... 2>&1 | tail -1)
 echo "tests: $t"
 for p in "$@"; do
-  out=$(VERIF_REPO=$d VERIF_DIR=${VERIF_DIR:-/tmp/sigmut-verif} /verif/bin/sigcheck -prop $p 2>&1); rc=$?
+  out=$(VERIF_REPO=$d VERIF_DIR=${VERIF_DIR:-/tmp/sigmut-verif} ${SIGCHECK:-/verif/bin/sigcheck} -prop $p 2>&1); rc=$?
   echo "--- $p rc=$rc"; echo "$out" | grep -v "^VIOLATION\|^==" | head -${LINES_MAX:-12}
 done
 rm -rf $d
